@@ -2,6 +2,8 @@ package main
 
 import (
 	"bytes"
+	"crypto"
+	"crypto/ecdsa"
 	"crypto/rand"
 	"crypto/rsa"
 	"crypto/x509"
@@ -9,50 +11,71 @@ import (
 	"fmt"
 	"os"
 	"path/filepath"
+	"time"
 
 	"github.com/9elements/converged-security-suite/v2/pkg/provisioning/bootguard"
 	"github.com/linuxboot/fiano/pkg/intel/metadata/bg"
 	"github.com/linuxboot/fiano/pkg/intel/metadata/cbnt"
 )
 
-// genPair runs the suite's own key generation (bg-prov keygen) and reads the keys
-// back through DecryptPrivKey / ReadPubKey.
-func (r *run) genPair(bits int, password, n1, n2 string) {
-	c := r.c
+// genFiles runs the suite's own key generation (bg-prov keygen) into a fresh
+// directory; nothing but the tool's code and the file system is involved, so it may
+// run beside the main thread (RSA-3072 takes a second or two per key).
+var keyFileNames = []string{"km_pub.pem", "km_priv.pem", "bpm_pub.pem", "bpm_priv.pem"}
+
+func genFiles(gen func(password string, f [4]*os.File) error, password string) (string, error) {
 	dir, err := os.MkdirTemp("", "c18keys")
 	if err != nil {
-		panic(err)
+		return "", err
 	}
-	defer os.RemoveAll(dir)
-	names := []string{"km_pub.pem", "km_priv.pem", "bpm_pub.pem", "bpm_priv.pem"}
-	files := make([]*os.File, 4)
-	for i, n := range names {
+	var files [4]*os.File
+	for i, n := range keyFileNames {
 		files[i], err = os.Create(filepath.Join(dir, n))
 		if err != nil {
-			panic(err)
+			return dir, err
 		}
 	}
-	err = bootguard.GenRSAKey(bits, password, files[0], files[1], files[2], files[3])
+	err = gen(password, files)
 	for _, f := range files {
 		f.Close()
 	}
-	if err != nil {
-		c.OracleFail(-1, fmt.Sprintf("GenRSAKey(%d) failed: %v", bits, err), "bootguard.GenRSAKey", map[string]interface{}{"bits": bits})
-		panic(err)
+	return dir, err
+}
+
+// readPair reads the keys back through DecryptPrivKey / ReadPubKey and judges them.
+func (r *run) readPair(dir string, gerr error, what string, bits int, password, n1, n2 string) {
+	c := r.c
+	defer os.RemoveAll(dir)
+	if gerr != nil {
+		c.OracleFail(-1, fmt.Sprintf("%s failed: %v", what, gerr), "bootguard."+what, map[string]interface{}{"bits": bits})
+		panic(gerr)
 	}
 	for i, name := range []string{n1, n2} {
-		enc, _ := os.ReadFile(filepath.Join(dir, names[1+2*i]))
+		enc, _ := os.ReadFile(filepath.Join(dir, keyFileNames[1+2*i]))
 		var k interface{}
+		var err error
 		p, pm := recoverCall(func() { k, err = bootguard.DecryptPrivKey(enc, password) })
-		rk, ok := k.(*rsa.PrivateKey)
+		sg, ok := k.(crypto.Signer)
 		if p || err != nil || !ok {
-			c.OracleFail(-1, fmt.Sprintf("key written by GenRSAKey does not decrypt with its own password: panic=%v %s err=%v", p, pm, err), "bootguard.DecryptPrivKey", map[string]interface{}{"bits": bits, "password": password, "file_hex": hexs(enc)})
+			c.OracleFail(-1, fmt.Sprintf("key written by %s does not decrypt with its own password: panic=%v %s err=%v", what, p, pm, err), "bootguard.DecryptPrivKey", map[string]interface{}{"bits": bits, "password": password, "file_hex": hexs(enc)})
 			panic("keygen")
 		}
-		pub, perr := bootguard.ReadPubKey(filepath.Join(dir, names[2*i]))
-		rp, ok2 := pub.(*rsa.PublicKey)
-		if perr != nil || !ok2 || rp.N.Cmp(rk.N) != 0 || rp.E != rk.E || rk.N.BitLen() != bits {
-			c.OracleFail(-1, "public key file written by GenRSAKey does not belong to the private key / wrong size", "bootguard.GenRSAKey", map[string]interface{}{"bits": bits})
+		pub, perr := bootguard.ReadPubKey(filepath.Join(dir, keyFileNames[2*i]))
+		good := perr == nil
+		switch rk := sg.(type) {
+		case *rsa.PrivateKey:
+			rp, ok2 := pub.(*rsa.PublicKey)
+			good = good && ok2 && rp.N.Cmp(rk.N) == 0 && rp.E == rk.E && rk.N.BitLen() == bits
+			r.keys[name] = rk
+		case *ecdsa.PrivateKey:
+			ep, ok2 := pub.(*ecdsa.PublicKey)
+			good = good && ok2 && ep.Equal(&rk.PublicKey) && rk.Curve.Params().BitSize == bits
+			r.ecc[name] = rk
+		default:
+			good = false
+		}
+		if !good {
+			c.OracleFail(-1, "public key file written by "+what+" does not belong to the private key / wrong kind or size", "bootguard."+what, map[string]interface{}{"bits": bits})
 		} else {
 			c.OracleOK()
 		}
@@ -60,26 +83,50 @@ func (r *run) genPair(bits int, password, n1, n2 string) {
 		var werr error
 		p, _ = recoverCall(func() { _, werr = bootguard.DecryptPrivKey(enc, password+"x") })
 		if !p && werr == nil {
-			c.OracleFail(-1, "private key written by GenRSAKey decrypts with a different password", "bootguard.DecryptPrivKey", map[string]interface{}{"bits": bits, "password": password, "tried": password + "x", "file_hex": hexs(enc)})
+			c.OracleFail(-1, "private key written by "+what+" decrypts with a different password", "bootguard.DecryptPrivKey", map[string]interface{}{"bits": bits, "password": password, "tried": password + "x", "file_hex": hexs(enc)})
 		} else {
 			c.OracleOK()
 		}
-		r.keys[name] = rk
 	}
 }
 
+func rsaGen(bits int) func(string, [4]*os.File) error {
+	return func(pw string, f [4]*os.File) error { return bootguard.GenRSAKey(bits, pw, f[0], f[1], f[2], f[3]) }
+}
+
+func eccGen(curve int) func(string, [4]*os.File) error {
+	return func(pw string, f [4]*os.File) error { return bootguard.GenECCKey(curve, pw, f[0], f[1], f[2], f[3]) }
+}
+
+type genResult struct {
+	dir string
+	err error
+}
+
+// makeKeys: every key size and key kind the tool generates, in every tier.
+//
+//	A, B  RSA-2048 (GenRSAKey 2048: KM key, BPM key)   C  RSA-2048 (a third party's key)
+//	D, E  RSA-3072 (GenRSAKey 3072), generated beside the main thread: need3072() joins
+//	P, P2 ECC P-256 (GenECCKey 256)                    Q, Q2 ECC P-224 (GenECCKey 224)
 func (r *run) makeKeys() {
-	r.genPair(2048, "c18-keygen-pw", "A", "B")
+	r.big = make(chan genResult, 1)
+	go func() {
+		dir, err := genFiles(rsaGen(3072), "c18-keygen-pw-3072")
+		r.big <- genResult{dir, err}
+	}()
+	dir, err := genFiles(rsaGen(2048), "c18-keygen-pw")
+	r.readPair(dir, err, "GenRSAKey", 2048, "c18-keygen-pw", "A", "B")
 	k, err := rsa.GenerateKey(rand.Reader, 2048)
 	if err != nil {
 		panic(err)
 	}
 	r.keys["C"] = k
-	if r.c.Thorough() {
-		r.genPair(3072, "c18-keygen-pw-3072", "D", "E")
-	}
-	// sizes the tool does not offer
-	for _, bits := range []int{0, 1024, 2047, 4096} {
+	dir, err = genFiles(eccGen(256), "c18-ecc")
+	r.readPair(dir, err, "GenECCKey", 256, "c18-ecc", "P", "P2")
+	dir, err = genFiles(eccGen(224), "")
+	r.readPair(dir, err, "GenECCKey", 224, "", "Q", "Q2")
+	// sizes / curves the tool does not offer
+	for _, bits := range []int{0, 1024, 2047, 2049, 3071, 4096} {
 		err := bootguard.GenRSAKey(bits, "x", nil, nil, nil, nil)
 		if err == nil {
 			r.c.OracleFail(-1, fmt.Sprintf("GenRSAKey accepts key size %d", bits), "bootguard.GenRSAKey", map[string]interface{}{"bits": bits})
@@ -87,6 +134,26 @@ func (r *run) makeKeys() {
 			r.c.OracleOK()
 		}
 	}
+	for _, curve := range []int{0, 192, 255, 384, 521} {
+		err := bootguard.GenECCKey(curve, "x", nil, nil, nil, nil)
+		if err == nil {
+			r.c.OracleFail(-1, fmt.Sprintf("GenECCKey accepts curve size %d", curve), "bootguard.GenECCKey", map[string]interface{}{"curve": curve})
+		} else {
+			r.c.OracleOK()
+		}
+	}
+}
+
+// need3072 joins the RSA-3072 generation (first use of keys D, E).
+func (r *run) need3072() {
+	if r.big == nil {
+		return
+	}
+	t0 := time.Now()
+	g := <-r.big
+	r.big = nil
+	r.c.Rep.Extra["keygen_3072_wait_seconds"] = time.Since(t0).Seconds()
+	r.readPair(g.dir, g.err, "GenRSAKey", 3072, "c18-keygen-pw-3072", "D", "E")
 }
 
 func pemOf(k interface{}) []byte {
@@ -127,21 +194,24 @@ func roundTrip(b *bootguard.BootGuard, doc int) (*bootguard.BootGuard, error) {
 func (r *run) signAll() {
 	c := r.c
 	rg := c.Rng
-	kmKeys := []string{"A"}
-	bpmKeys := []string{"B"}
-	if c.Thorough() {
-		kmKeys = append(kmKeys, "D")
-		bpmKeys = append(bpmKeys, "E")
+	// (KM key, BPM key) x shapes: both sizes the tool generates in EVERY tier, and the
+	// two mixed pairs (a 2048-bit KM key over a 3072-bit BPM key and the reverse)
+	type keySet struct {
+		km, bpm string
+		s0, n   int
 	}
-	nShapes := c.Scale(6, 12)
+	sets := []keySet{{"A", "B", 0, c.Scale(6, 12)}, {"D", "E", 0, c.Scale(3, 12)}, {"A", "E", 2, c.Scale(2, 4)}, {"D", "B", 3, c.Scale(2, 4)}}
 	full := 0
 	fullSearch := func() bool { full++; return full%5 == 1 || c.Thorough() }
 	type combo struct{ scheme, hash string }
 	main4 := []combo{{"RSASSA", "SHA256"}, {"RSAPSS", "SHA384"}, {"RSASSA", "SHA384"}, {"RSAPSS", "SHA256"}}
-	odd := []combo{{"RSASSA", "SHA1"}, {"RSAPSS", "SM3"}, {"RSASSA", "AlgNull"}, {"RSAPSS", "AlgNull"}}
-	for ki := range kmKeys {
-		kk, bk := kmKeys[ki], bpmKeys[ki]
-		for s := 0; s < nShapes; s++ {
+	odd := []combo{{"RSASSA", "SHA1"}, {"RSAPSS", "SM3"}, {"RSASSA", "SM3"}, {"RSAPSS", "SHA1"}, {"RSASSA", "AlgNull"}, {"RSAPSS", "AlgNull"}, {"RSASSA", "ALGUNKNOWN"}, {"RSAPSS", "algunknown"}}
+	for si, ks := range sets {
+		if si == 1 {
+			r.need3072()
+		}
+		kk, bk := ks.km, ks.bpm
+		for s := ks.s0; s < ks.s0+ks.n; s++ {
 			forceEdge = 0
 			if s < 2 {
 				forceEdge = s + 1
@@ -152,13 +222,14 @@ func (r *run) signAll() {
 				bh = "SHA1"
 			}
 			if b, d, err := buildBgKM(rg, pubOf(r.keys[kk]), pubOf(r.keys[bk]), bh); err == nil {
+				d["bpmkey"] = bk
 				if s%2 == 1 {
 					if b2, err := roundTrip(b, 0); err == nil {
 						b = b2
 						d["flow"] = "file"
 					}
 				}
-				r.signOne(b, 0, "RSASSA", "", kk, d, fullSearch(), fmt.Sprintf("bgkm-%s-%d", kk, s))
+				r.signOne(b, 0, "RSASSA", "", kk, d, fullSearch(), fmt.Sprintf("bgkm-%s%s-%d", kk, bk, s))
 			} else {
 				c.OracleFail(-1, "cannot build BG KM: "+err.Error(), "harness", nil)
 			}
@@ -173,9 +244,9 @@ func (r *run) signAll() {
 						c.Count("bgbpm-unsigned-file-not-readable")
 					}
 				}
-				r.signOne(b, 1, "RSASSA", "SHA256", bk, d, fullSearch(), fmt.Sprintf("bgbpm-%s-%d", bk, s))
+				r.signOne(b, 1, "RSASSA", "SHA256", bk, d, fullSearch(), fmt.Sprintf("bgbpm-%s%s-%d", kk, bk, s))
 				if s < 2 {
-					r.harnessSignBgBPM(b, bk, d, fmt.Sprintf("bgbpm-h-%s-%d", bk, s))
+					r.harnessSignBgBPM(b, bk, d, fmt.Sprintf("bgbpm-h-%s%s-%d", kk, bk, s))
 				}
 			} else {
 				c.OracleFail(-1, "cannot build BG BPM: "+err.Error(), "harness", nil)
@@ -193,13 +264,16 @@ func (r *run) signAll() {
 					extra = -1
 				}
 				if b, d, err := buildCbntKM(rg, pubOf(r.keys[kk]), pubOf(r.keys[bk]), pk, bpmHash, extra); err == nil {
+					if extra >= 0 {
+						d["bpmkey"] = bk
+					}
 					if (s+ci)%2 == 1 {
 						if b2, err := roundTrip(b, 0); err == nil {
 							b = b2
 							d["flow"] = "file"
 						}
 					}
-					r.signOne(b, 0, cb.scheme, cb.hash, kk, d, fullSearch(), fmt.Sprintf("cbntkm-%s-%d-%s-%s", kk, s, cb.scheme, cb.hash))
+					r.signOne(b, 0, cb.scheme, cb.hash, kk, d, fullSearch(), fmt.Sprintf("cbntkm-%s%s-%d-%s-%s", kk, bk, s, cb.scheme, cb.hash))
 				} else {
 					c.OracleFail(-1, "cannot build CBnT KM: "+err.Error(), "harness", nil)
 				}
@@ -212,31 +286,15 @@ func (r *run) signAll() {
 							c.OracleFail(-1, "bpm-gen --cut output is not readable by NewBPM: "+err.Error(), "bootguard.NewBPM", d)
 						}
 					}
-					r.signOne(b, 1, cb.scheme, cb.hash, bk, d, fullSearch(), fmt.Sprintf("cbntbpm-%s-%d-%s-%s", bk, s, cb.scheme, cb.hash))
+					r.signOne(b, 1, cb.scheme, cb.hash, bk, d, fullSearch(), fmt.Sprintf("cbntbpm-%s%s-%d-%s-%s", kk, bk, s, cb.scheme, cb.hash))
 				} else {
 					c.OracleFail(-1, "cannot build CBnT BPM: "+err.Error(), "harness", nil)
 				}
 			}
 		}
 	}
+	r.signNames()
 	forceEdge = 0
-	// scheme names the tool does not offer for RSA keys must be refused, not mis-signed
-	if b, d, err := buildCbntKM(rg, pubOf(r.keys["A"]), pubOf(r.keys["B"]), cbnt.AlgSHA256, "SHA256", 0); err == nil {
-		for _, bad := range []string{"", "FOO", "SHA256", "ECDSA", "SM2", "RSA"} {
-			var out []byte
-			var serr error
-			p, _ := recoverCall(func() { out, serr = b.SignKM(bad, r.keys["A"]) })
-			if !p && serr == nil {
-				o, _ := suiteVerifyFile(0, out)
-				if o != oOk {
-					c.OracleFail(-1, fmt.Sprintf("SignKM(%q) with an RSA key reports success but the result does not verify", bad), "bootguard.SignKM", d)
-					continue
-				}
-			}
-			c.OracleOK()
-			c.Count("sign/refused-scheme")
-		}
-	}
 	_ = bg.AlgNull
 }
 
